@@ -52,6 +52,37 @@ TABLE = {
              ("force",)),
         ],
     },
+    ("LFRicLoopFuseTrans", "validate"): {
+        "raises": 9,
+        "consults": [
+            ("super().validate(node1, node2", "the generic fusion checks"),
+            ("check_intergrid(node1)", "refusing inter-grid kernels (first "
+             "loop)"),
+            ("check_intergrid(node2)", "refusing inter-grid kernels (second "
+             "loop)"),
+            ("node1.upper_bound_name != node2.upper_bound_name",
+             "comparing the upper bounds"),
+            ("node1.upper_bound_halo_depth != node2.upper_bound_halo_depth",
+             "comparing the halo depths"),
+            # every kernel of a (possibly already fused) loop counts
+            ("node1.args_filter(", "collecting the reductions of all "
+             "kernels in the first loop"),
+            ("node2.args_filter(", "collecting the reductions / arguments "
+             "of all kernels in the second loop"),
+        ],
+        "contains": [
+            ("get_valid_reduction_modes()", "all reduction modes count"),
+        ],
+    },
+    ("GOceanLoopFuseTrans", "validate"): {
+        "raises": 2,
+        "consults": [
+            (("super(GOceanLoopFuseTrans, self).validate(node1, node2",
+              "super().validate(node1, node2"), "the generic fusion checks"),
+            ("node1.field_space != node2.field_space", "comparing the "
+             "grid-point types"),
+        ],
+    },
     ("LoopFuseTrans", "_validate_written_scalar"): {"raises": 1},
     ("LoopFuseTrans", "_validate_written_array"): {"raises": 2},
     ("LoopSwapTrans", "validate"): {
